@@ -8,6 +8,7 @@ import (
 	"bufio"
 	"encoding/json"
 	"fmt"
+	"io"
 	"math/rand"
 	"os"
 	"regexp"
@@ -68,6 +69,7 @@ func init() {
 		}
 		steps := 0
 		limit := 0
+		quiet := false
 		s.CPU.OnPC = map[uint32]func(){}
 		for a := uint32(0x8000); a < 0x8400; a++ {
 			a := a
@@ -76,10 +78,16 @@ func init() {
 				if steps > limit {
 					panic(abortRun{})
 				}
-				emit(map[string]interface{}{"k": "cb", "pc": int(a), "all": int(s.CPU.AllCycles)})
+				if !quiet {
+					emit(map[string]interface{}{"k": "cb", "pc": int(a), "all": int(s.CPU.AllCycles)})
+				}
 			}
 		}
-		s.CPU.OnWDM = func(v byte) { emit(map[string]interface{}{"k": "wdm", "v": int(v)}) }
+		s.CPU.OnWDM = func(v byte) {
+			if !quiet {
+				emit(map[string]interface{}{"k": "wdm", "v": int(v)})
+			}
+		}
 		lg := &evLogger{emit: emit, sys: s}
 		for i := 0; i < n; i++ {
 			// program at $00:8000 (ROM[0:]), instruction starts recorded
@@ -175,44 +183,89 @@ func init() {
 			if r.Intn(4) == 0 {
 				budget = r.Intn(60)
 			}
-			s.CPU.Reset()
-			s.CPU.E = 0
-			s.CPU.SetFlags(0x34)
-			s.CPU.RA, s.CPU.RAl, s.CPU.RAh = uint16(r.Intn(6)), byte(r.Intn(6)), 0
-			s.CPU.RX, s.CPU.RXl, s.CPU.RY, s.CPU.RYl = 3, 3, 0x10, 0x10
-			s.CPU.SP = 0x1FF
-			s.CPU.AllCycles = uint64(r.Intn(100000))
-			s.SetPC(uint32(start))
+			a0, ax, all0 := uint16(r.Intn(6)), byte(r.Intn(6)), uint64(r.Intn(100000))
 			logging := r.Intn(2) == 0
-			if logging {
-				s.Logger = lg
-			} else {
-				s.Logger = nil
+			type finalT struct {
+				Result  bool  `json:"result"`
+				Crashed bool  `json:"crashed"`
+				Aborted bool  `json:"aborted"`
+				St      Arch  `json:"st"`
+				All     int   `json:"all"`
+				Mem     int64 `json:"mem"`
 			}
-			steps, limit = 0, budget+3
-			emit(map[string]interface{}{"k": "begin", "target": target, "budget": budget, "pc": start, "all": int(s.CPU.AllCycles),
-				"logging": logging, "prog": prog})
-			var res bool
-			aborted := false
-			crashed := false
-			func() {
-				defer func() {
-					if e := recover(); e != nil {
-						if _, ok := e.(abortRun); ok {
-							aborted = true
-						} else {
-							crashed = true // e.g. an access to an unmapped bus address: outside the property's domain
-						}
+			runOnce := func(withLogger bool, observe bool) finalT {
+				for j := range s.WRAM {
+					s.WRAM[j] = byte(j * 13)
+				}
+				for j := range s.SRAM {
+					s.SRAM[j] = byte(j * 7)
+				}
+				s.CPU.Reset()
+				s.CPU.E = 0
+				s.CPU.SetFlags(0x34)
+				s.CPU.RA, s.CPU.RAl, s.CPU.RAh = a0, ax, 0
+				s.CPU.RX, s.CPU.RXl, s.CPU.RY, s.CPU.RYl = 3, 3, 0x10, 0x10
+				s.CPU.SP = 0x1FF
+				s.CPU.AllCycles = all0
+				s.SetPC(uint32(start))
+				quiet = !observe
+				if withLogger {
+					if observe {
+						s.Logger = lg
+					} else {
+						s.Logger = io.Discard
 					}
+				} else {
+					s.Logger = nil
+				}
+				steps, limit = 0, budget+3
+				if observe {
+					emit(map[string]interface{}{"k": "begin", "target": target, "budget": budget, "pc": start, "all": int(s.CPU.AllCycles),
+						"logging": withLogger, "prog": prog})
+				}
+				var fin finalT
+				func() {
+					defer func() {
+						if e := recover(); e != nil {
+							if _, ok := e.(abortRun); ok {
+								fin.Aborted = true
+							} else {
+								fin.Crashed = true // e.g. an access to an unmapped bus address: outside the property's domain
+							}
+						}
+					}()
+					fin.Result = s.RunUntil(uint32(target), uint64(budget))
 				}()
-				res = s.RunUntil(uint32(target), uint64(budget))
-			}()
-			if crashed {
-				emit(map[string]interface{}{"k": "lost"})
-			} else if aborted {
-				emit(map[string]interface{}{"k": "abort", "pc": int(s.GetPC()), "all": int(s.CPU.AllCycles)})
-			} else {
-				emit(map[string]interface{}{"k": "ret", "result": res, "pc": int(s.GetPC()), "all": int(s.CPU.AllCycles)})
+				fin.St = projPri(&s.CPU)
+				fin.All = int(s.CPU.AllCycles)
+				var h int64
+				for j, b := range s.WRAM {
+					h = (h*31 + int64(b) + int64(j&0xFF)) % 2147483629
+				}
+				for j, b := range s.SRAM {
+					h = (h*31 + int64(b) + int64(j&0xFF)) % 2147483629
+				}
+				fin.Mem = h
+				if observe {
+					if fin.Crashed {
+						emit(map[string]interface{}{"k": "lost"})
+					} else if fin.Aborted {
+						emit(map[string]interface{}{"k": "abort", "pc": int(s.GetPC()), "all": int(s.CPU.AllCycles)})
+					} else {
+						emit(map[string]interface{}{"k": "ret", "result": fin.Result, "pc": int(s.GetPC()), "all": int(s.CPU.AllCycles)})
+					}
+				}
+				return fin
+			}
+			f1 := runOnce(logging, true)
+			// the same run with the opposite tracing setting, unobserved: tracing must not perturb execution (C14)
+			f2 := runOnce(!logging, false)
+			if !f1.Crashed && !f2.Crashed {
+				wl, wo := f1, f2
+				if !logging {
+					wl, wo = f2, f1
+				}
+				emit(map[string]interface{}{"k": "pair", "with": wl, "without": wo})
 			}
 		}
 		w.Flush()
